@@ -47,7 +47,6 @@ Definition check (c : case) : N :=
                               (snd x))
                        evs (Acc (world0 ns) true 0 (false, false, false) []) in
     let w := a_w a in
-    let '(_, fo, _) := if sched =? 0 then (false, false, false) else a_flags a in
     (* the property at quiescence, on what the implementation showed: every broker's remote entries
        are exactly the brokers with a live local subscriber, and every publish reached every live
        subscriber of its channel once *)
@@ -59,9 +58,8 @@ Definition check (c : case) : N :=
     if w_sensitive w then 0     (* the implementation iterates a Go map here: outcome not determined *)
     else
       bit (a_ok a && model_pubs && quiet w) 1
-      (* at quiescence the routing differs from the ground truth: known class F7 when the schedule
-         declared a peer offline, a violation otherwise *)
-      |+| (if truth_ok then 0 else if fo then 16 else 2)
+      (* at quiescence the routing differs from the ground truth *)
+      |+| bit truth_ok 2
   end.
 
 (* debugging aid: index of the first event after which a broker differs *)
